@@ -43,10 +43,10 @@ def setters : List Setter := [
   ⟨"class_BaseGeo.py", "BaseGeo", "position", "inp", [.save "old_pos" "self._position", .assign "self._position" true ["check_format_input_vector"], .assign "oriQ" false ["self._orientation.as_quat"], .assign "self._orientation" true ["pad_slice_path", "R.from_quat"], .loop ["getattr"] [.assign "old_pos" false ["pad_slice_path"], .assign "child_pos" false ["pad_slice_path"], .assign "rel_child_pos" false [], .assignElem "child.position [child in getattr(self, 'children', [])]" []]]⟩,
   ⟨"class_BaseGeo.py", "BaseGeo", "orientation", "inp", [.assign "old_oriQ" false ["self._orientation.as_quat"], .assign "oriQ" false ["check_format_input_orientation"], .assign "self._orientation" true ["R.from_quat"], .assign "self._position" true ["pad_slice_path"], .loop ["getattr"] [.assignElem "child.position [child in getattr(self, 'children', [])]" ["pad_slice_path"], .assign "old_ori_pad" false ["pad_slice_path", "np.squeeze", "R.from_quat"], .expr ["old_ori_pad.inv", "child.rotate"]]]⟩,
   ⟨"class_BaseGeo.py", "BaseGeo", "style", "val", [.assign "self._style" true ["self._validate_style"]]⟩,
-  ⟨"class_Collection.py", "BaseCollection", "children", "children", [.inline "self._replace_children" ["list"] [.save "old_children" "self._children", .loop [] [.assignElem "child._parent [child in removed]" []], .assign "self._children" true ["any"], .expr ["self._update_src_and_sens"], .tryExcept [.expr ["self.add"]] "Exception" [.restore "self._children" "old_children", .loop [] [.assignElem "child._parent [child in removed]" []], .expr ["self._update_src_and_sens"], .raise ""]]]⟩,
+  ⟨"class_Collection.py", "BaseCollection", "children", "children", [.ite ["isinstance"] [.assign "children" false []] [], .inline "self._replace_children" ["list"] [.save "old_children" "self._children", .loop [] [.assignElem "child._parent [child in removed]" []], .assign "self._children" true ["any"], .expr ["self._update_src_and_sens"], .tryExcept [.expr ["self.add"]] "Exception" [.restore "self._children" "old_children", .loop [] [.assignElem "child._parent [child in removed]" []], .expr ["self._update_src_and_sens"], .raise ""]]]⟩,
   ⟨"class_Collection.py", "BaseCollection", "sources", "sources", [.assign "src_list" false ["format_obj_input"], .assign "removed" false [], .inline "self._replace_children" [] [.save "old_children" "self._children", .loop [] [.assignElem "child._parent [child in removed]" []], .assign "self._children" true ["any"], .expr ["self._update_src_and_sens"], .tryExcept [.expr ["self.add"]] "Exception" [.restore "self._children" "old_children", .loop [] [.assignElem "child._parent [child in removed]" []], .expr ["self._update_src_and_sens"], .raise ""]]]⟩,
   ⟨"class_Collection.py", "BaseCollection", "sensors", "sensors", [.assign "sens_list" false ["format_obj_input"], .assign "removed" false [], .inline "self._replace_children" [] [.save "old_children" "self._children", .loop [] [.assignElem "child._parent [child in removed]" []], .assign "self._children" true ["any"], .expr ["self._update_src_and_sens"], .tryExcept [.expr ["self.add"]] "Exception" [.restore "self._children" "old_children", .loop [] [.assignElem "child._parent [child in removed]" []], .expr ["self._update_src_and_sens"], .raise ""]]]⟩,
-  ⟨"class_Collection.py", "BaseCollection", "collections", "collections", [.assign "coll_list" false ["format_obj_input"], .assign "removed" false [], .inline "self._replace_children" [] [.save "old_children" "self._children", .loop [] [.assignElem "child._parent [child in removed]" []], .assign "self._children" true ["any"], .expr ["self._update_src_and_sens"], .tryExcept [.expr ["self.add"]] "Exception" [.restore "self._children" "old_children", .loop [] [.assignElem "child._parent [child in removed]" []], .expr ["self._update_src_and_sens"], .raise ""]]]⟩,
+  ⟨"class_Collection.py", "BaseCollection", "collections", "collections", [.expr ["_refuse_non_objects"], .assign "coll_list" false ["format_obj_input"], .assign "removed" false [], .inline "self._replace_children" [] [.save "old_children" "self._children", .loop [] [.assignElem "child._parent [child in removed]" []], .assign "self._children" true ["any"], .expr ["self._update_src_and_sens"], .tryExcept [.expr ["self.add"]] "Exception" [.restore "self._children" "old_children", .loop [] [.assignElem "child._parent [child in removed]" []], .expr ["self._update_src_and_sens"], .raise ""]]]⟩,
   ⟨"class_Sensor.py", "Sensor", "pixel", "pix", [.assign "pixel" false ["range", "check_format_input_vector"], .ite [] [.raise "MagpylibBadUserInput"] [], .restore "self._pixel" "pixel"]⟩,
   ⟨"class_Sensor.py", "Sensor", "handedness", "val", [.ite ["isinstance"] [.raise "MagpylibBadUserInput"] [], .restore "self._handedness" "val"]⟩,
   ⟨"class_current_Circle.py", "Circle", "diameter", "dia", [.assign "self._diameter" true ["check_format_input_scalar"]]⟩,
